@@ -49,7 +49,12 @@
  *                    c close client end   a close accepted end   s close server
  *                    H hand the client end over (mutex-protected slot)   T take it (waits for it)
  *                    m send one message on the client end   r receive one message on the accepted end
- *                    D raise the "done" flag   W wait for it
+ *                    D raise the "done" flag   W wait for it     E / V the same with a second flag
+ *                    F a TLS failure on a socket of its own: connect to a raw TCP peer that answers the ClientHello
+ *                      with junk (handshake must fail)      B the same by a certificate the own server refuses
+ *                    i / j  xcm_receive on the idle client / accepted end: must be -1/EAGAIN, connection stays usable
+ *                    n send one message on the accepted end   q receive it on the client end (own or taken over)
+ *   tp btls = the byte-stream TLS transport (messages are byte ranges)
  *   In every mode the OpenSSL entry points that build or read process-global state on the initialisation and
  *   socket-creation paths (OPENSSL_init_ssl, BIO_get_new_index, BIO_meth_new, BIO_meth_set_*, BIO_new) are
  *   scheduling points too; SSL_set_bio under pts=all only.  No TLS socket exists before the threads start, so in
@@ -73,6 +78,9 @@
 #include <stdio.h>
 #include <stdlib.h>
 #include <string.h>
+#include <arpa/inet.h>
+#include <netinet/in.h>
+#include <sys/socket.h>
 #include <sys/syscall.h>
 #include <unistd.h>
 
@@ -100,6 +108,7 @@ struct thr {
     struct xcm_socket *srv, *cli, *acc;
     int pc;                    /* index of the op in progress */
     int nsent, nrecv;          /* messages */
+    int nrev, nq;              /* messages accepted end -> client end: sent (n), received (q) */
     int failed;
     int hooks;                 /* shim calls seen inside this thread's API calls */
 };
@@ -167,9 +176,15 @@ static long pay_diff(const unsigned char *buf, int m, size_t len)
 #define fail_(sig, ...) mc_violation(sig, __VA_ARGS__)
 #endif
 
+static int is_tls(const char *tp) { return !strcmp(tp, "tls") || !strcmp(tp, "btls"); }
+static int is_bs(const char *tp) { return tp[0] == 'b'; }      /* byte-stream service */
+
 static const char *cred_dir(char cred, char *buf, size_t n)
 {
-    snprintf(buf, n, "%s/good_%c", g_pki, cred);
+    if (cred == 'u')
+        snprintf(buf, n, "%s/peer_untrusted_root", g_pki);     /* chain to a root nobody here trusts */
+    else
+        snprintf(buf, n, "%s/good_%c", g_pki, cred);
     return buf;
 }
 
@@ -178,13 +193,13 @@ static const char *cred_cn(char cred)
     return cred == 'a' ? "alpha.verif.test" : "bravo.verif.test";
 }
 
-static struct xcm_attr_map *sock_attrs(struct thr *t)
+static struct xcm_attr_map *sock_attrs_cred(struct thr *t, char cred)
 {
     struct xcm_attr_map *m = xcm_attr_map_create();
     xcm_attr_map_add_bool(m, "xcm.blocking", false);
-    if (!strcmp(t->tp, "tls")) {
+    if (is_tls(t->tp)) {
         char d[300], p[340];
-        cred_dir(t->cred, d, sizeof d);
+        cred_dir(cred, d, sizeof d);
         snprintf(p, sizeof p, "%s/cert.pem", d);
         xcm_attr_map_add_str(m, "tls.cert_file", p);
         snprintf(p, sizeof p, "%s/key.pem", d);
@@ -194,6 +209,8 @@ static struct xcm_attr_map *sock_attrs(struct thr *t)
     }
     return m;
 }
+
+static struct xcm_attr_map *sock_attrs(struct thr *t) { return sock_attrs_cred(t, t->cred); }
 
 static void op_failed(struct thr *t, char op, const char *what)
 {
@@ -294,12 +311,18 @@ static size_t msg_len(int tid, int no)
 static int send_one(struct thr *t, struct xcm_socket *from, int msgno, char op)
 {
     static __thread unsigned char buf[4096];
-    size_t len = msg_len(t->id, msgno);
+    size_t len = msg_len(t->id, msgno), off = 0;
     pay_fill(buf, t->id * 50 + msgno, len);
     for (int i = 0;; i++) {
-        int rc = CALL("xcm_send", xcm_send(from, buf, len));
+        int rc = CALL("xcm_send", xcm_send(from, buf + off, len - off));
         if (rc == 0)
             break;
+        if (rc > 0) {              /* byte stream: that many bytes were accepted */
+            off += rc;
+            if (off >= len)
+                break;
+            continue;
+        }
         if (errno != EAGAIN || i > MAXSPIN) {
             op_failed(t, op, "xcm_send");
             return -1;
@@ -322,10 +345,20 @@ static int send_one(struct thr *t, struct xcm_socket *from, int msgno, char op)
 static int recv_one(struct thr *t, struct xcm_socket *at, int owner_tid, int msgno, char op)
 {
     static __thread unsigned char buf[8192];
-    size_t len = msg_len(owner_tid, msgno);
+    size_t len = msg_len(owner_tid, msgno), got = 0;
+    int bs = -1;
     for (int i = 0;; i++) {
-        int rc = CALL("xcm_receive", xcm_receive(at, buf, sizeof buf));
+        if (bs < 0) {
+            char sv[32] = "";
+            bs = xcm_attr_get_str(at, "xcm.service", sv, sizeof sv) >= 0 && !strcmp(sv, "bytestream");
+        }
+        int rc = CALL("xcm_receive", xcm_receive(at, buf + got, bs ? len - got : sizeof buf));
+        if (rc > 0 && bs && got + rc < len) {     /* byte stream: the rest is still to come */
+            got += rc;
+            continue;
+        }
         if (rc > 0) {
+            rc += (int)got;
             long d = (size_t)rc == len ? pay_diff(buf, owner_tid * 50 + msgno, len) : -2;
             if (d != -1) {
                 char sig[120];
@@ -391,7 +424,7 @@ static int op_attrs(struct thr *t, const char *tp, char cred)
             return -1;
         }
     }
-    if (!strcmp(tp, "tls") && cred) {
+    if (is_tls(tp) && cred) {
         if (t->cli && check_peer_cn(t, cred, t->cli, "client") < 0)
             return -1;
         if (t->acc && check_peer_cn(t, t->cred, t->acc, "server") < 0)
@@ -415,10 +448,151 @@ static int op_close(struct thr *t, struct xcm_socket **s, char op)
     return 0;
 }
 
+/* ---- a TLS failure on a socket of this thread's own ------------------------------------------------ */
+/* 'F': connect to a raw TCP peer that answers the ClientHello with junk: the handshake must fail (EPROTO) */
+static int op_tls_failure_junk(struct thr *t)
+{
+    int l = socket(AF_INET, SOCK_STREAM | SOCK_NONBLOCK, 0), r = -1;
+    struct sockaddr_in sa = { .sin_family = AF_INET };
+    socklen_t sl = sizeof sa;
+    inet_pton(AF_INET, "127.0.0.1", &sa.sin_addr);
+    if (l < 0 || bind(l, (struct sockaddr *)&sa, sizeof sa) < 0 || listen(l, 4) < 0 ||
+        getsockname(l, (struct sockaddr *)&sa, &sl) < 0) {
+        op_failed(t, 'F', "raw-listener");
+        if (l >= 0)
+            close(l);
+        return -1;
+    }
+#ifndef H_THR_TSAN
+    env_set_raw(l);
+#endif
+    char a[96];
+    snprintf(a, sizeof a, "%s:127.0.0.1:%d", is_tls(t->tp) ? t->tp : "tls", ntohs(sa.sin_port));
+    struct thr tt = *t;
+    if (!is_tls(t->tp)) {
+        snprintf(tt.tp, sizeof tt.tp, "tls");
+        tt.cred = 'a';
+    }
+    struct xcm_attr_map *m = sock_attrs(&tt);
+    struct xcm_socket *y = CALL("xcm_connect_a", xcm_connect_a(a, m));
+    xcm_attr_map_destroy(m);
+    int failed_as_due = 0, answered = 0, e = 0;
+    if (!y) {
+        e = errno;
+        failed_as_due = errno == EPROTO;
+    }
+    for (int i = 0; y && i <= MAXSPIN; i++) {
+        if (r < 0) {
+            r = accept4(l, NULL, NULL, SOCK_NONBLOCK);
+#ifndef H_THR_TSAN
+            if (r >= 0)
+                env_set_raw(r);
+#endif
+        }
+        int rc = CALL("xcm_finish", xcm_finish(y));
+        if (rc < 0 && errno != EAGAIN) {
+            e = errno;
+            failed_as_due = 1;
+            break;
+        }
+        if (r >= 0 && !answered) {
+            char hello[2048];
+            if (recv(r, hello, sizeof hello, 0) > 0) {
+                static const char junk[] = "HTTP/1.1 400 Bad Request\r\nConnection: close\r\n\r\n";
+                if (send(r, junk, sizeof junk - 1, 0) > 0)
+                    answered = 1;
+            }
+        }
+        RELAX();
+    }
+    if (y)
+        CALL("xcm_close", xcm_close(y));
+    if (r >= 0)
+        close(r);
+    close(l);
+    if (!failed_as_due) {
+        errno = e;
+        op_failed(t, 'F', "tls-handshake-with-junk-peer-did-not-fail");
+        return -1;
+    }
+    OBS("t%d tls failure (junk peer): %s", t->id, errname(e));
+    return 0;
+}
+
+/* 'B': a second connection to this thread's own TLS server with a certificate the policy refuses */
+static int op_tls_failure_cert(struct thr *t)
+{
+    struct xcm_attr_map *m = sock_attrs_cred(t, 'u'), *am = xcm_attr_map_create();
+    xcm_attr_map_add_bool(am, "xcm.blocking", false);
+    struct xcm_socket *y = CALL("xcm_connect_a", xcm_connect_a(t->addr, m)), *z = NULL;
+    xcm_attr_map_destroy(m);
+    int yfail = !y, zfail = 0, ok_rounds = 0;
+    for (int i = 0; i <= MAXSPIN && !(yfail && (zfail || !z)) ; i++) {
+        if (!z && !zfail) {
+            z = CALL("xcm_accept_a", xcm_accept_a(t->srv, am));
+            if (!z && errno != EAGAIN)
+                zfail = 1;
+        }
+        int f1 = 0, f2 = 0;
+        if (y && !yfail && (f1 = CALL("xcm_finish", xcm_finish(y))) < 0 && errno != EAGAIN)
+            yfail = 1;
+        if (z && !zfail && (f2 = CALL("xcm_finish", xcm_finish(z))) < 0 && errno != EAGAIN)
+            zfail = 1;
+        if (yfail && zfail)
+            break;
+        if (y && z && !yfail && !zfail && f1 == 0 && f2 == 0 && ++ok_rounds > 3)
+            break;                     /* established: the refusal did not happen */
+        /* once one end has failed, the other learns it from the closed connection */
+        if (yfail && y) {
+            CALL("xcm_close", xcm_close(y));
+            y = NULL;
+        }
+        if (zfail && z) {
+            CALL("xcm_close", xcm_close(z));
+            z = NULL;
+        }
+        RELAX();
+    }
+    xcm_attr_map_destroy(am);
+    if (y)
+        CALL("xcm_close", xcm_close(y));
+    if (z)
+        CALL("xcm_close", xcm_close(z));
+    if (!yfail && !zfail) {
+        errno = 0;
+        op_failed(t, 'B', "untrusted-certificate-was-not-refused");
+        return -1;
+    }
+    OBS("t%d tls failure (refused certificate) client=%d server=%d", t->id, yfail, zfail);
+    return 0;
+}
+
+/* 'i' / 'j': receive on an established, idle connection: must say EAGAIN and leave the connection usable */
+static int op_idle_receive(struct thr *t, struct xcm_socket *s, const char *tp, char op)
+{
+    unsigned char b[64];
+    if (!s)
+        return 0;
+    int rc = CALL("xcm_receive", xcm_receive(s, b, sizeof b));
+    if (rc < 0 && errno == EAGAIN) {
+        OBS("t%d idle receive EAGAIN", t->id);
+        return 0;
+    }
+    char sig[160];
+    int e = errno;
+    snprintf(sig, sizeof sig, "C15/delivery/idle-receive-on-healthy-connection/%s/tp=%s",
+             rc > 0 ? "data-from-nowhere" : rc == 0 ? "end-of-stream" : errname(e), tp);
+    fail_(sig, "thread %d: xcm_receive on an established connection with nothing pending returned %d (%s) instead of "
+               "-1/EAGAIN; nothing happened on this connection - only other sockets were used by this thread before",
+          t->id, rc, rc < 0 ? errname(e) : "-");
+    t->failed = 1;
+    return -1;
+}
+
 /* ---- hand-over ------------------------------------------------------------------------------ */
 #ifndef H_THR_TSAN
 static int slot_filled(void *a) { (void)a; return g_slot != NULL || g_abort; }
-static int done_raised(void *a) { (void)a; return g_done != 0 || g_abort; }
+static int done_raised(void *a) { return (g_done & (int)(intptr_t)a) != 0 || g_abort; }
 #endif
 
 static void op_handover(struct thr *t)
@@ -456,10 +630,10 @@ static void op_take(struct thr *t)
     OBS("t%d took the socket", t->id);
 }
 
-static void op_done(struct thr *t)
+static void op_done(struct thr *t, int bit)
 {
     pthread_mutex_lock(&g_slot_lock);
-    g_done = 1;
+    g_done |= bit;
 #ifdef H_THR_TSAN
     pthread_cond_broadcast(&g_slot_cv);
 #endif
@@ -467,19 +641,19 @@ static void op_done(struct thr *t)
     OBS("t%d done flag", t->id);
 }
 
-static void op_wait_done(struct thr *t)
+static void op_wait_done(struct thr *t, int bit)
 {
     pthread_mutex_lock(&g_slot_lock);
-    while (!g_done && !g_abort) {
+    while (!(g_done & bit) && !g_abort) {
 #ifdef H_THR_TSAN
         pthread_cond_wait(&g_slot_cv, &g_slot_lock);
 #else
         pthread_mutex_unlock(&g_slot_lock);
-        mc_wait_cond(done_raised, NULL, "wait-done");
+        mc_wait_cond(done_raised, (void *)(intptr_t)bit, "wait-done");
         pthread_mutex_lock(&g_slot_lock);
 #endif
     }
-    if (!g_done)
+    if (!(g_done & bit))
         t->failed = 1;         /* the partner's failure has been reported */
     pthread_mutex_unlock(&g_slot_lock);
     OBS("t%d saw done", t->id);
@@ -541,8 +715,29 @@ static void thread_body(void *arg)
                 t->nrecv++;
             OBS("t%d received", t->id);
             break;
-        case 'D': op_done(t); break;
-        case 'W': op_wait_done(t); break;
+        case 'D': op_done(t, 1); break;
+        case 'W': op_wait_done(t, 1); break;
+        case 'E': op_done(t, 2); break;
+        case 'V': op_wait_done(t, 2); break;
+        case 'F': op_tls_failure_junk(t); break;
+        case 'B': op_tls_failure_cert(t); break;
+        case 'i': op_idle_receive(t, t->cli, clitp, op); break;
+        case 'j': op_idle_receive(t, t->acc, t->tp, op); break;
+        case 'n':                       /* one message on the accepted end (towards the client end) */
+            if (send_one(t, t->acc, 20 + t->nrev, op) == 0)
+                t->nrev++;
+            OBS("t%d sent on accepted end", t->id);
+            break;
+        case 'q': {                     /* ... and its reception on the client end (possibly taken over) */
+            struct thr tmp = *t;
+            snprintf(tmp.tp, sizeof tmp.tp, "%s", clitp);
+            if (recv_one(&tmp, t->cli, owner, 20 + t->nq, op) == 0)
+                t->nq++;
+            else
+                t->failed = 1;
+            OBS("t%d received on client end", t->id);
+            break;
+        }
         default: break;
         }
     }
@@ -606,7 +801,7 @@ static int parse_threads(const char *params)
             t->cred = slash[1];
         }
         snprintf(t->tp, sizeof t->tp, "%s", b);
-        if (!strcmp(t->tp, "tls") && !t->cred)
+        if (is_tls(t->tp) && !t->cred)
             t->cred = 'a';
         snprintf(t->script, sizeof t->script, "%s", colon + 1);
         g_nthr++;
